@@ -481,3 +481,144 @@ Proof.
   apply (Rmult_le_reg_r T); [exact HT|]. replace (p / T * T) with p by (field; lra). lra.
 Qed.
 End Sampling.
+
+(* ------------------------------------------------------------------------------------ *)
+(* 9. Invariance under re-presentation: pair order, comparison labels, table order        *)
+(* ------------------------------------------------------------------------------------ *)
+From Coq Require Import Permutation.
+
+Lemma count_level_perm i v rows rows' : Permutation rows rows' -> count_level i v rows = count_level i v rows'.
+Proof. intros P. unfold count_level. apply Permutation_length, filter_perm. exact P. Qed.
+Lemma count_nonnull_perm i rows rows' : Permutation rows rows' -> count_nonnull i rows = count_nonnull i rows'.
+Proof. intros P. unfold count_nonnull. apply Permutation_length, filter_perm. exact P. Qed.
+
+Lemma frequency_perm i v rows rows' : Permutation rows rows' -> frequency i v rows = frequency i v rows'.
+Proof.
+  intros P. unfold frequency.
+  rewrite (count_level_perm i v rows rows' P), (count_nonnull_perm i rows rows' P). reflexivity.
+Qed.
+
+Theorem estimates_perm_invariant i v rows rows' :
+  Permutation rows rows' -> v <> (-1)%Z ->
+  u_estimate i v rows = u_estimate i v rows' /\ m_estimate i v rows = m_estimate i v rows'.
+Proof.
+  intros P Hv. rewrite !u_is_frequency, !m_is_frequency by exact Hv.
+  rewrite (frequency_perm i v rows rows' P). tauto.
+Qed.
+
+Definition model_no_null (m : model) : Prop :=
+  forall c l, In c (md_cmps m) -> In l (mc_levels c) -> lv_val (ml_lv l) <> (-1)%Z.
+
+Lemma map_levels_ext f g m :
+  (forall i c l, In c (md_cmps m) -> In l (mc_levels c) -> f i l = g i l) -> map_levels f m = map_levels g m.
+Proof.
+  intros H. unfold map_levels. f_equal. apply mapi_from_ext. intros i c Hc. f_equal.
+  apply map_ext_in. intros l Hl. exact (H i c l Hc Hl).
+Qed.
+
+Theorem estimators_perm_invariant rows rows' m :
+  model_no_null m -> Permutation rows rows' ->
+  estimate_u rows m = estimate_u rows' m /\
+  estimate_m_label rows m = estimate_m_label rows' m /\
+  estimate_m_pairs rows m = estimate_m_pairs rows' m.
+Proof.
+  intros Hnn P.
+  assert (Hm : forall b, map_levels (fun i => add_m b i rows) m = map_levels (fun i => add_m b i rows') m).
+  { intros b. apply map_levels_ext. intros i c l Hc Hl. unfold add_m.
+    destruct (estimates_perm_invariant i _ rows rows' P (Hnn c l Hc Hl)) as [_ E]. rewrite E. reflexivity. }
+  unfold estimate_u, estimate_m_label, estimate_m_pairs. rewrite !Hm. split; [|tauto]. f_equal.
+  apply map_levels_ext. intros i c l Hc Hl. unfold add_u.
+  destruct (estimates_perm_invariant i _ rows rows' P (Hnn c l Hc Hl)) as [E _]. rewrite E. reflexivity.
+Qed.
+
+(* relabelling the comparisons: column j of the relabelled pairs is column (nth j pi 0) *)
+Lemma gam_reorder pi j g : (j < length pi)%nat -> gam j (reorder (-1)%Z pi g) = gam (nth j pi O) g.
+Proof. intros Hj. unfold gam. apply nth_reorder. exact Hj. Qed.
+
+Lemma length_filter_map {A B : Type} (h : A -> B) (q : B -> bool) l :
+  length (filter q (map h l)) = length (filter (fun x => q (h x)) l).
+Proof. rewrite filter_map_comm. apply map_length. Qed.
+
+Lemma frequency_relabel pi j v rows : (j < length pi)%nat ->
+  frequency j v (map (reorder (-1)%Z pi) rows) = frequency (nth j pi O) v rows.
+Proof.
+  intros Hj.
+  assert (E1 : count_level j v (map (reorder (-1)%Z pi) rows) = count_level (nth j pi O) v rows).
+  { unfold count_level. rewrite length_filter_map. f_equal. apply filter_ext. intros g.
+    rewrite gam_reorder by exact Hj. reflexivity. }
+  assert (E2 : count_nonnull j (map (reorder (-1)%Z pi) rows) = count_nonnull (nth j pi O) rows).
+  { unfold count_nonnull. rewrite length_filter_map. f_equal. apply filter_ext. intros g.
+    rewrite gam_reorder by exact Hj. reflexivity. }
+  unfold frequency. rewrite E1, E2. reflexivity.
+Qed.
+
+Lemma const_scored_relabel p pi rows :
+  const_scored p (map (reorder (-1)%Z pi) rows) = map (relabel_srow pi) (const_scored p rows).
+Proof. unfold const_scored. rewrite !map_map. reflexivity. Qed.
+
+(* no condition on v and no permutation hypothesis: only j in range *)
+Theorem estimates_relabel_invariant pi j v rows : (j < length pi)%nat ->
+  frequency j v (map (reorder (-1)%Z pi) rows) = frequency (nth j pi O) v rows /\
+  u_estimate j v (map (reorder (-1)%Z pi) rows) = u_estimate (nth j pi O) v rows /\
+  m_estimate j v (map (reorder (-1)%Z pi) rows) = m_estimate (nth j pi O) v rows.
+Proof.
+  intros Hj. split; [apply frequency_relabel; exact Hj|].
+  unfold u_estimate, m_estimate. rewrite !const_scored_relabel, !props_tbl_relabel by exact Hj. tauto.
+Qed.
+
+(* the order in which the input tables are listed *)
+Lemma zsum_perm ns ns' : Permutation ns ns' -> zsum ns = zsum ns'.
+Proof. unfold zsum. induction 1; cbn [map fold_right]; lia. Qed.
+Lemma zsq_perm ns ns' : Permutation ns ns' -> zsq ns = zsq ns'.
+Proof. unfold zsq. induction 1; cbn [map fold_right]; lia. Qed.
+
+Theorem admissible_pairs_perm lt ns ns' : Permutation ns ns' -> admissible_pairs lt ns = admissible_pairs lt ns'.
+Proof.
+  intros P. apply Nat2Z.inj. unfold admissible_pairs.
+  destruct lt.
+  - pose proof (count_pairs_all (tags_from 0 ns)) as H1. pose proof (count_pairs_all (tags_from 0 ns')) as H2.
+    rewrite length_tags, zsum_nat in H1, H2. rewrite (zsum_perm ns ns' P) in H1.
+    change (adm_of DedupeOnly) with (fun _ _ : nat => true). lia.
+  - pose proof (count_pairs_link ns 0) as H1. pose proof (count_pairs_link ns' 0) as H2.
+    rewrite (zsum_perm ns ns' P), (zsq_perm ns ns' P) in H1. lia.
+  - pose proof (count_pairs_all (tags_from 0 ns)) as H1. pose proof (count_pairs_all (tags_from 0 ns')) as H2.
+    rewrite length_tags, zsum_nat in H1, H2. rewrite (zsum_perm ns ns' P) in H1.
+    change (adm_of LinkAndDedupe) with (fun _ _ : nat => true). lia.
+Qed.
+
+Definition opt_Qeq (a b : option Q) : Prop :=
+  match a, b with Some c, Some c' => c == c' | None, None => True | _, _ => False end.
+
+Theorem cartesian_perm lt ns ns' :
+  Permutation ns ns' -> opt_Qeq (cartesian lt (map injn ns)) (cartesian lt (map injn ns')).
+Proof.
+  intros P.
+  assert (Hlen : length (map injn ns) = length (map injn ns')) by (rewrite !map_length; apply Permutation_length; exact P).
+  destruct (cartesian lt (map injn ns)) as [c|] eqn:E1, (cartesian lt (map injn ns')) as [c'|] eqn:E2; cbn [opt_Qeq]; try exact I.
+  - rewrite (cartesian_counts_admissible_pairs lt ns c E1), (cartesian_counts_admissible_pairs lt ns' c' E2).
+    rewrite (admissible_pairs_perm lt ns ns' P). reflexivity.
+  - destruct lt; cbn [cartesian] in E1, E2; rewrite <- ?Hlen in E2.
+    + destruct (Nat.ltb 1 (length (map injn ns))); discriminate.
+    + destruct (Nat.leb (length (map injn ns)) 1); discriminate.
+    + discriminate.
+  - destruct lt; cbn [cartesian] in E1, E2; rewrite <- ?Hlen in E2.
+    + destruct (Nat.ltb 1 (length (map injn ns))); discriminate.
+    + destruct (Nat.leb (length (map injn ns)) 1); discriminate.
+    + discriminate.
+Qed.
+
+Definition prior_eqv (a b : prior_result) : Prop :=
+  match a, b with
+  | PriorOk p, PriorOk p' => p == p'
+  | BadRecall, BadRecall | RecallInconsistent, RecallInconsistent => True
+  | _, _ => False
+  end.
+
+Theorem prior_estimate_compat obs recall c c' :
+  c == c' -> prior_eqv (prior_estimate obs recall c) (prior_estimate obs recall c').
+Proof.
+  intros E. unfold prior_estimate. destruct (Qlt_bool 1 recall || Qle_bool recall 0)%bool; [exact I|].
+  assert (H : Qlt_bool (c * recall) obs = Qlt_bool (c' * recall) obs).
+  { apply bool_eq_iff. rewrite !Qlt_bool_iff, E. tauto. }
+  rewrite H. destruct (Qlt_bool (c' * recall) obs); [exact I|]. cbn [prior_eqv]. rewrite E. reflexivity.
+Qed.
